@@ -309,6 +309,16 @@ func (g *genState) leafrefs() {
 	if len(targets) == 0 {
 		return
 	}
+	// some top-level leaves are leafrefs to another one themselves and targets all the same: a chain of two steps
+	if len(targets) > 1 {
+		for i := 1; i < len(targets); i++ {
+			if n := targets[i]; rapid.IntRange(0, 5).Draw(g.t, "leafref-hop?") == 0 {
+				tg := targets[rapid.IntRange(0, i-1).Draw(g.t, "hop-target")]
+				n.Type = &Type{Base: "leafref", Path: "/" + tg.Name, Target: tg.Type}
+				n.Default, n.Defaults = nil, nil
+			}
+		}
+	}
 	var walk func(parent, n *Node)
 	walk = func(parent, n *Node) {
 		if n.IsLeafy() && n.Type.Base != "leafref" {
@@ -321,7 +331,7 @@ func (g *genState) leafrefs() {
 			}
 			if !key && !isTarget && rapid.IntRange(0, 9).Draw(g.t, "leafref?") == 0 {
 				tg := targets[rapid.IntRange(0, len(targets)-1).Draw(g.t, "leafref-target")]
-				if n.Kind == "leaf-list" && (tg.Type.Base == "union" || tg.Type.Base == "binary") {
+				if eb := tg.Type.Eff().Base; n.Kind == "leaf-list" && (eb == "union" || eb == "binary") {
 					return // the harness has no leaf-lists of unions or binaries
 				}
 				n.Type = &Type{Base: "leafref", Path: "/" + tg.Name, Target: tg.Type}
